@@ -22,3 +22,15 @@ Proof.
   repeat (match goal with |- context [take ?n ?x] => destruct (take n x) as [[? ?]|]; cbn; [|discriminate] end).
   intros [= -> _]. reflexivity.
 Qed.
+
+(* the vector part of a decoded rotation is the three dequantised bytes whatever its length: no renormalisation,
+   also outside the unit ball, where the real part is 0 *)
+Lemma rot_of_xyz b0 b1 b2 :
+  let '(x, y, z, _) := rot_of [b0; b1; b2] 0 in x = rot1 b0 /\ y = rot1 b1 /\ z = rot1 b2.
+Proof. cbn. repeat split. Qed.
+
+Lemma rot_of_outside_ball :
+  (let '(x, y, z, w2) := rot_of [255; 255; 255] 0 in (x == 1 /\ y == 1 /\ z == 1 /\ w2 == 0)%Q) /\
+  (let '(x, y, z, w2) := rot_of [0; 0; 0] 0 in (x == -1 /\ y == -1 /\ z == -1 /\ w2 == 0)%Q) /\
+  (let '(x, y, z, w2) := rot_of [255; 127; 127] 0 in (x == 1 /\ y == - (1 # 255) /\ z == - (1 # 255) /\ w2 == 0)%Q).
+Proof. vm_compute. repeat split; reflexivity. Qed.
